@@ -253,3 +253,43 @@ def replay_clean_p1(p):
     r2 = clean_stream_check({"seed": 3, "n": 120})
     if r2["violations"]: return {"violated": True, "detail": r2["violations"][0], "found_by": r2["name"]}
     return {"violated": False, "inconclusive": True, "detail": "no generated clean stream breaks the contract on the real reader"}
+
+def p1_resync_check(p):
+    """the resync contract of ModeDReader.read() (props/clean_p1.py) on the real reader: arbitrary bytes, then clean readouts; after every call the read position has not passed the
+    end of the first clean readout (A1), or the reader is in the clean-stream STATE and has returned one readout per end line after A1 (bounded: generated streams)"""
+    rnd = random.Random(p.get("seed", 0)); n = p.get("n", 200); ev = 0; distinct = set(); bad = []
+    noise_parts = [b"/", b"!", b"\n", b"\r\n", b"/AB\xff5\r\n", b"/ABC5\r\n", b"x", b"!zz\r\n", b"\x7e\xa0", b"/ABC5id!x\r\n", b"1-0:1.8.0(1*kWh)\r\n", b"/KFM5KAIFA-METER\r\n\r\n1-0:1.8.0(1", b"abc/def", b"\xff\xfe"]
+    for it in range(n):
+        noise = b"".join(rnd.choice(noise_parts) for _ in range(rnd.randrange(0, 7)))
+        if it % 9 == 0: noise += b"/ABC5\r\n" + b"x" * rnd.choice([100, 5000, 9000])
+        ros = []
+        for _ in range(rnd.randrange(2, 7)):
+            body = rnd.choice([b"/AUX5UXXXXXXXXXXXXXXX", b"/KFM5KAIFA-METER", b"/ABC5"]) + b"\r\n\r\n" + b"".join(rnd.choice([b"1-0:1.8.0(00006678.394*kWh)", b"0-0:1.0.0(210217184019W)", b""]) + b"\r\n" for _ in range(rnd.randrange(0, 12))) + b"!"
+            ros.append(body + ((b"%04X" % sp.crc16_arc(body)) if rnd.random() < 0.85 else b"") + b"\r\n")
+        A0 = len(noise); A1 = A0 + len(ros[0]); s = noise + b"".join(ros)
+        _a, IN, RS, NRO, hyp = p1_ideal_functions(s[A0:])
+        if hyp or _a != 0: bad.append({"why": "the clean part does not satisfy the hypotheses: " + (hyp[0] if hyp else "leading octets")}); break
+        size = rnd.choice([1, 3, 7, 64, 1000, len(s)])
+        cuts = list(range(size, len(s), size)) if rnd.random() < 0.6 else sorted(rnd.sample(range(len(s) + 1), min(len(s) + 1, rnd.randrange(0, 12))))
+        r = dlde.ModeDReader(); got = []; why = None; after = []
+        for a, b in zip([0] + cuts, cuts + [len(s)]):
+            out = r.read(s[a:b]); ev += 1
+            pl = len(r._buffer._buffer) - r._buffer._buffer_pos; gp = b - pl
+            for x in out:
+                got.append(x)
+            if gp < A1:
+                if not r.is_in_hunt_mode and not (gp >= 1 and s[gp - 1:gp] == b"\n"): why = f"position {gp} < A1: collecting but not right after a line end"
+            else:
+                ls = gp - A0
+                if ls not in IN: why = f"position {gp} >= A1 is not a line start of the clean part"
+                elif r.is_in_hunt_mode != (not IN[ls]): why = f"position {gp}: hunt mode {r.is_in_hunt_mode}, in_readout = {IN[ls]}"
+                elif IN[ls] and bytes(r._raw_data) != s[A0 + RS[ls]:gp]: why = f"position {gp}: collected octets are not the stream since the readout started"
+                else:
+                    want = ros[1:NRO[ls]]; tail = [g.as_bytes for g in got][-len(want):] if want else []
+                    if tail != want: why = f"position {gp}: the readouts after the first clean one were not all returned ({len(want)} expected)"
+            if why: break
+        if not why and [g.as_bytes for g in got][-(len(ros) - 1):] != ros[1:]: why = "the clean readouts after the first one were not all returned"
+        distinct.add((len(noise), len(s), size))
+        if why: bad.append({"why": why, "noise": noise.decode("latin1")[:80], "cuts": cuts[:12], "stream_len": len(s)}); break
+    return {"name": "p1_resync_check (resync contract of ModeDReader.read(), evaluated on the real reader)", "bound": f"{n} generated streams: noise (fake identification lines, '!' lines, binary, over-long lines) + 2..6 clean readouts x chunkings",
+            "evaluations": ev, "distinct_nontrivial": len(distinct), "violations": bad[:2]}
